@@ -328,9 +328,9 @@ def show_facts(tree, src):
     i = 0
     while i < len(rest) and isinstance(rest[i], ast.Assign) and track_wrapped(rest[i], env):
         i += 1
-    if len(rest) - i != 4:
-        raise Untranslatable(f"show: expected 4 statements after the wrap, found {len(rest) - i}")
-    s_res, s_tab, s_if, s_print = rest[i:]
+    if len(rest) - i < 2:
+        raise Untranslatable("show: statements after the wrap not found")
+    s_res, tail = rest[i], rest[i + 1:]
     # result = <recv>.limit(<E>).collect()
     v = s_res.value if isinstance(s_res, ast.Assign) else None
     ok = v is not None and dotted(s_res.targets[0]) == "result" and isinstance(v, ast.Call) and not v.args and not v.keywords \
@@ -343,27 +343,64 @@ def show_facts(tree, src):
     arg, targ = Tr11(types={"n": "Z"}, env={}, calls={}).e(v.func.value.args[0])
     if targ != "Z":
         raise Untranslatable("show: limit argument is not an int")
-    if not (isinstance(s_tab, ast.Assign) and dotted(s_tab.targets[0]) == "table" and is_call(s_tab.value, "PrettyTable", 0, [])):
-        raise Untranslatable("show: `table = PrettyTable()` not found")
-    # if row := seq_get(result, 0): table.field_names = row._unique_field_names; for row in result: table.add_row(list(row))
-    t = s_if.test if isinstance(s_if, ast.If) else None
-    ok = t is not None and not s_if.orelse and isinstance(t, ast.NamedExpr) and t.target.id == "row" \
-        and is_call(t.value, "seq_get", 2, []) and dotted(t.value.args[0]) == "result" \
-        and const_of(t.value.args[1], "show: seq_get index") == 0 and len(s_if.body) == 2
-    if not ok:
-        raise Untranslatable("show: `if row := seq_get(result, 0):` with two statements not found")
-    s_names, s_for = s_if.body
-    if not (isinstance(s_names, ast.Assign) and dotted(s_names.targets[0]) == "table.field_names"
-            and dotted(s_names.value) == "row._unique_field_names"):
-        raise Untranslatable("show: header is not row._unique_field_names")
-    ok = isinstance(s_for, ast.For) and not s_for.orelse and dotted(s_for.iter) == "result" and isinstance(s_for.target, ast.Name) \
-        and len(s_for.body) == 1 and isinstance(s_for.body[0], ast.Expr) and is_call(s_for.body[0].value, "table.add_row", 1, []) \
-        and is_call(s_for.body[0].value.args[0], "list", 1, []) and dotted(s_for.body[0].value.args[0].args[0]) == s_for.target.id
-    if not ok:
-        raise Untranslatable("show: rows are not added as `for row in result: table.add_row(list(row))`")
-    if not (isinstance(s_print, ast.Expr) and is_call(s_print.value, "print", 1, []) and dotted(s_print.value.args[0]) == "table"):
-        raise Untranslatable("show: `print(table)` not found")
-    return {"default": n_default, "wraps": wraps, "arg": arg, "header_needs_row": True,
+
+    def is_table(st):
+        return isinstance(st, ast.Assign) and dotted(st.targets[0]) == "table" and is_call(st.value, "PrettyTable", 0, [])
+
+    def is_rows(st):
+        return isinstance(st, ast.For) and not st.orelse and dotted(st.iter) == "result" and isinstance(st.target, ast.Name) \
+            and len(st.body) == 1 and isinstance(st.body[0], ast.Expr) and is_call(st.body[0].value, "table.add_row", 1, []) \
+            and is_call(st.body[0].value.args[0], "list", 1, []) and dotted(st.body[0].value.args[0].args[0]) == st.target.id
+
+    def is_print(st):
+        return isinstance(st, ast.Expr) and is_call(st.value, "print", 1, []) and dotted(st.value.args[0]) == "table"
+
+    if len(tail) == 3:
+        # table = PrettyTable(); if row := seq_get(result, 0): <header from that row>; <rows>; print(table)
+        s_tab, s_if, s_print = tail
+        t = s_if.test if isinstance(s_if, ast.If) else None
+        ok = is_table(s_tab) and is_print(s_print) and t is not None and not s_if.orelse and isinstance(t, ast.NamedExpr) \
+            and t.target.id == "row" and is_call(t.value, "seq_get", 2, []) and dotted(t.value.args[0]) == "result" \
+            and const_of(t.value.args[1], "show: seq_get index") == 0 and len(s_if.body) == 2
+        if not ok:
+            raise Untranslatable("show: `table = PrettyTable(); if row := seq_get(result, 0): ...; print(table)` not found")
+        s_names, s_for = s_if.body
+        if not (isinstance(s_names, ast.Assign) and dotted(s_names.targets[0]) == "table.field_names"
+                and dotted(s_names.value) == "row._unique_field_names"):
+            raise Untranslatable("show: header is not row._unique_field_names")
+        if not is_rows(s_for):
+            raise Untranslatable("show: rows are not added as `for row in result: table.add_row(list(row))`")
+        header_needs_row = True
+    elif len(tail) == 5:
+        # header = seq_get(result, 0) or _create_row(self.columns, [None] * len(self.columns))   (names without any row)
+        # table = PrettyTable(); table.field_names = header._unique_field_names; <rows>; print(table)
+        s_hdr, s_tab, s_names, s_for, s_print = tail
+        if is_table(s_hdr):
+            s_hdr, s_tab = s_tab, s_hdr
+        h = s_hdr.value if isinstance(s_hdr, ast.Assign) and isinstance(s_hdr.targets[0], ast.Name) else None
+        ok = h is not None and isinstance(h, ast.BoolOp) and isinstance(h.op, ast.Or) and len(h.values) == 2 \
+            and is_call(h.values[0], "seq_get", 2, []) and dotted(h.values[0].args[0]) == "result" \
+            and const_of(h.values[0].args[1], "show: seq_get index") == 0 \
+            and is_call(h.values[1], "_create_row", 2, []) and dotted(h.values[1].args[0]) == "self.columns"
+        if not ok:
+            raise Untranslatable("show: `header = seq_get(result, 0) or _create_row(self.columns, ...)` not found")
+        fill = h.values[1].args[1]     # [None] * len(self.columns): one value per column
+        ok = isinstance(fill, ast.BinOp) and isinstance(fill.op, ast.Mult) and isinstance(fill.left, ast.List) \
+            and len(fill.left.elts) == 1 and is_call(fill.right, "len", 1, []) and dotted(fill.right.args[0]) == "self.columns"
+        if not ok:
+            raise Untranslatable("show: placeholder row is not `[x] * len(self.columns)`")
+        hv = s_hdr.targets[0].id
+        if not (is_table(s_tab) and isinstance(s_names, ast.Assign) and dotted(s_names.targets[0]) == "table.field_names"
+                and dotted(s_names.value) == hv + "._unique_field_names"):
+            raise Untranslatable("show: header is not <header>._unique_field_names")
+        if not is_rows(s_for):
+            raise Untranslatable("show: rows are not added as `for row in result: table.add_row(list(row))`")
+        if not is_print(s_print):
+            raise Untranslatable("show: `print(table)` not found")
+        header_needs_row = False
+    else:
+        raise Untranslatable(f"show: {len(tail)} statements after `result = ...`")
+    return {"default": n_default, "wraps": wraps, "arg": arg, "header_needs_row": header_needs_row,
             "vertical_raises": vertical_raises, "truncate_only_logs": truncate_only_logs, "hash": py2v.src_hash(f, src)}
 
 
@@ -375,9 +412,10 @@ def rename_facts(tree, src):
     if len(body) != 3:
         raise Untranslatable(f"_unique_field_names: expected 3 statements, found {len(body)}")
     s0, s1, s2 = body
-    if not (isinstance(s0, ast.Assign) and isinstance(s0.targets[0], ast.Name) and isinstance(s0.value, ast.List) and not s0.value.elts):
+    tgt0 = s0.targets[0] if isinstance(s0, ast.Assign) else s0.target if isinstance(s0, ast.AnnAssign) else None
+    if not (isinstance(tgt0, ast.Name) and isinstance(s0.value, ast.List) and not s0.value.elts):
         raise Untranslatable("_unique_field_names: accumulator is not initialised with []")
-    acc = s0.targets[0].id
+    acc = tgt0.id
     ok = isinstance(s1, ast.For) and not s1.orelse and isinstance(s1.target, ast.Tuple) and len(s1.target.elts) == 2 \
         and all(isinstance(x, ast.Name) for x in s1.target.elts) \
         and is_call(s1.iter, "enumerate", 1, []) and dotted(s1.iter.args[0]) == "self.__fields__"
@@ -393,9 +431,43 @@ def rename_facts(tree, src):
                 raise Untranslatable("_unique_field_names: accumulator is modified inside the body")
             if isinstance(x, (ast.Assign, ast.AugAssign)) and acc in names_used(getattr(x, "targets", [getattr(x, "target", None)])):
                 raise Untranslatable("_unique_field_names: accumulator is re-assigned inside the body")
-    tr = Tr11(types={acc: "liststring", iv: "nat", fv: "string"}, env={}, calls={})
-    # the appended value is the body's result
-    term, ty = tr.body(list(s1.body[:-1]) + [ast.Return(value=last.value.args[0])])
+    types0 = {acc: "liststring", iv: "nat", fv: "string"}
+    inner = list(s1.body[:-1])
+    if len(inner) == 2 and isinstance(inner[1], ast.While):
+        # cand, ctr = <start>, <index>;  while <bad(cand)>: cand = <mk(ctr)>; ctr += 1;  acc.append(cand)
+        s_init, s_while = inner
+        ok = isinstance(s_init, ast.Assign) and isinstance(s_init.targets[0], ast.Tuple) and len(s_init.targets[0].elts) == 2 \
+            and all(isinstance(x, ast.Name) for x in s_init.targets[0].elts) and isinstance(s_init.value, ast.Tuple) \
+            and len(s_init.value.elts) == 2
+        if not ok:
+            raise Untranslatable("_unique_field_names: `cand, ctr = start, index` not found before the while loop")
+        cand, ctr = (x.id for x in s_init.targets[0].elts)
+        if len({cand, ctr, acc, iv, fv}) != 5:
+            raise Untranslatable("_unique_field_names: loop variables shadow each other")
+        start, t_start = Tr11(types=types0, env={}, calls={}).e(s_init.value.elts[0])
+        idx, t_idx = Tr11(types=types0, env={}, calls={}).e(s_init.value.elts[1])
+        if (t_start, t_idx) != ("string", "nat"):
+            raise Untranslatable(f"_unique_field_names: start/index have types {t_start}/{t_idx}")
+        wb = s_while.body
+        ok = not s_while.orelse and len(wb) == 2 and isinstance(wb[0], ast.Assign) and dotted(wb[0].targets[0]) == cand \
+            and isinstance(wb[1], ast.AugAssign) and dotted(wb[1].target) == ctr and isinstance(wb[1].op, ast.Add) \
+            and isinstance(wb[1].value, ast.Constant) and wb[1].value.value == 1
+        if not ok:
+            raise Untranslatable("_unique_field_names: while body is not `cand = <expr>; ctr += 1`")
+        bad, t_bad = Tr11(types={**types0, cand: "string"}, env={}, calls={}).e(s_while.test)
+        if t_bad != "bool" or ctr in names_used([s_while.test]):
+            raise Untranslatable("_unique_field_names: while condition is not a bool over the candidate")
+        mk, t_mk = Tr11(types={**types0, ctr: "nat"}, env={}, calls={}).e(wb[0].value)
+        if t_mk != "string" or cand in names_used([wb[0].value]):
+            raise Untranslatable("_unique_field_names: candidate expression is not a string over the counter")
+        if dotted(last.value.args[0]) != cand:
+            raise Untranslatable("_unique_field_names: the appended value is not the loop's candidate")
+        term = (f"(while_fresh (fun {cand} => {bad}) (fun {ctr} => {mk}) {start} {idx} (S (List.length {acc})))")
+        ty = "string"
+    else:
+        tr = Tr11(types=types0, env={}, calls={})
+        # the appended value is the body's result
+        term, ty = tr.body(inner + [ast.Return(value=last.value.args[0])])
     if ty != "string":
         raise Untranslatable(f"_unique_field_names: appended value has type {ty}")
     if not (isinstance(s2, ast.Return) and dotted(s2.value) == acc):
